@@ -27,6 +27,7 @@ pub struct Constraint { _x: u8 }
 //@@ TYPE src/check/constrain/constraint/expected.rs | enum | Expect
 use crate::Expect::{Type, Expression, Function, Access, Field};
 pub struct Context { _x: u8 }
+#[derive(Clone)]
 pub struct TypeErr { _x: u8 }
 /// stand-in for the builder: the public field is real, everything private (constraint sets, branch bookkeeping, the
 /// ghost logs are functions of it) is one opaque field — two builders with the same global mapping are NOT equal
